@@ -156,6 +156,42 @@ replay_page = e2e_pages.replay_page
 BOUNDED = [invalid_text, pages]
 
 
+BULLET_PIECES = ["  * ", "    - ", "      + ", "k:: v", "k::", "::", ":: ", "x", "240101", "240101#ab", " ", "  ", "[k:: a b]", "P1", "-", "*", "+"]
+
+
+def bullet_bodies(tier, seed):
+    """Multi-line note bodies assembled from bullet markers, property fragments and blanks (the words the bullet-property scan
+    of _add_note looks at): all sequences of <= 2 pieces per continuation line for one line, random ones for up to 3 lines."""
+    zdir = Path(tempfile.mkdtemp(prefix="zorgverif-c08b-"))
+    rng = random.Random(seed * 5 + 2)
+    fails, n = [], 0
+
+    def page(lines, first="- 240101#aa note"):
+        return "# T\n\n" + first + "\n" + "".join("  " + ln.rstrip("\n") + "\n" for ln in lines) + "\n"
+
+    try:
+        cases = []
+        for first in ("- 240101#aa note", "- 240101#aa note k:: v", "o P1 240101#aa todo ::"):
+            for a in BULLET_PIECES:
+                cases.append((first, [a.strip(" ") and a or "x"]))
+                for b in BULLET_PIECES:
+                    cases.append((first, [a + b]))
+                    cases.append((first, [a, b]))
+        for _ in range(300 if tier == "quick" else 6000):
+            first = rng.choice(["- 240101#aa note", "- 240101#aa note k:: v", "x 240101#aa done [k:: v w]"])
+            cases.append((first, ["".join(rng.choice(BULLET_PIECES) for _ in range(rng.randint(1, 4))) for _ in range(rng.randint(1, 3))]))
+        for first, lines in cases:
+            text = page(lines, first)
+            err = check_text(text, zdir)
+            n += 1
+            if err:
+                fails.append({"text": text, "error": err})
+    finally:
+        shutil.rmtree(zdir, ignore_errors=True)
+    return {"name": "bullet_bodies", "bound": f"{n} note bodies whose continuation lines are assembled from {len(BULLET_PIECES)} bullet / property / blank pieces (all 1- and 2-piece lines, random lines up to 4 pieces x 3 lines)",
+            "evaluations": n, "distinct_nontrivial": n, "failures": fails, "samples": [{"text": page(["    -     - x"], "- 240101#aa note k:: v")}], "replay_fn": "replay_text"}
+
+
 def refusal(tier, seed):
     """`db create` / `db reindex` refuse a broken page unless it is whitelisted (histories of whitelists and page names)."""
     from checks.zdirlab import Lab
@@ -219,4 +255,4 @@ def refusal(tier, seed):
             "evaluations": evals, "distinct_nontrivial": evals, "failures": fails, "samples": [{"names": list(name_sets[0])}], "replay_fn": "replay_text"}
 
 
-BOUNDED = [invalid_text, pages, refusal]
+BOUNDED = [invalid_text, bullet_bodies, pages, refusal]
